@@ -175,6 +175,11 @@ def run_case(kind, grid, li, quad, extra, pair, drv, probe):
                     arr[idx] = old
                     if st != "raised":
                         return fail("perturbation-accepted", f"{arr_name}[t={t0}, {lab}] perturbed by +100 is accepted by check_stock_balance")
+                    arr[idx] = float("nan")
+                    st, info = attempt(lambda: s.check_stock_balance())
+                    arr[idx] = old
+                    if st != "raised":
+                        return fail("perturbation-accepted", f"{arr_name}[t={t0}, {lab}] set to NaN is accepted by check_stock_balance")
                     arr[idx] = old + 1e-6
                     st, info = attempt(lambda: s.check_stock_balance())
                     arr[idx] = old
